@@ -271,3 +271,43 @@ def bit_containers(bits01):
     else:
         pad = (-len(plain)) % 8
         yield "slice_of_bitarray_over_readonly_buffer", bitarray(buffer=(plain + bitarray("0" * pad)).tobytes())[: len(plain)], None
+
+
+def observe(obj, extra=(), _depth=0, _seen=None, light=False):
+    """Everything a caller may do to *look at* an object between two uses: repr, str, ==, hash, len, bool, iteration, copy, and the
+    object's own read-only views (`extra`: method names called without arguments, e.g. "as_xml").  None of it may change what the
+    object serialises to afterwards.  Exceptions raised by an observer are not this helper's business (returned, not raised)."""
+    import copy as _copy
+
+    if _seen is None:
+        _seen = set()
+    if id(obj) in _seen or _depth > 3:
+        return []
+    _seen.add(id(obj))
+    raised = []
+    lookers = [("repr", repr), ("str", str), ("eq", lambda o: o == o), ("hash", hash), ("len", len), ("bool", bool)]
+    if not light:
+        lookers += [("ne", lambda o: o != _copy.copy(o)), ("copy", _copy.copy), ("deepcopy", _copy.deepcopy), ("format", lambda o: f"{o}"), ("dir", dir)]
+    for name, f in lookers:
+        try:
+            f(obj)
+        except Exception as e:  # noqa: BLE001
+            if name in ("repr", "str", "eq", "format"):
+                raised.append((name, e))
+    for m in extra:
+        fn = getattr(obj, m, None)
+        if callable(fn):
+            try:
+                fn()
+            except Exception as e:  # noqa: BLE001
+                raised.append((m, e))
+    d = getattr(obj, "__dict__", None)
+    if isinstance(d, dict):
+        for v in list(d.values()):
+            if hasattr(v, "__dict__") and not isinstance(v, (type, enum.Enum)) and not callable(v):
+                raised += observe(v, extra, _depth + 1, _seen, light)
+            elif isinstance(v, (list, tuple)):
+                for x in v[:8]:
+                    if hasattr(x, "__dict__") and not isinstance(x, (type, enum.Enum)) and not callable(x):
+                        raised += observe(x, extra, _depth + 1, _seen, light)
+    return raised
